@@ -248,8 +248,13 @@ def _precheck(
                 skipmap[key] = True
                 reason = 'already added'
 
-            # can't have an extension without the base
-            elif base and cur.execute(lexqry, base).fetchone() is None:
+            # can't have an extension without the base, which is
+            # already in the db or gets added earlier from the same source
+            elif (base
+                  and cur.execute(lexqry, base).fetchone() is None
+                  and skipmap.get(
+                      format_lexicon_specifier(base['id'], base['version']),
+                      True)):
                 skipmap[key] = True
                 base_key = format_lexicon_specifier(base['id'], base['version'])
                 reason = f"base lexicon ({base_key}) not available"
